@@ -633,3 +633,11 @@ def pre_checks(ctx):
     if len(COMBOS) != 167:
         fails.append(("table:admissible-subsets", "expected 167 admissible context subsets, enumerated %d" % len(COMBOS)))
     return fails
+
+
+# functions of /repo whose executed-line coverage by this run is reported in the evidence
+ANCHORS = [('swh/model/git_objects.py', 'raw_extrinsic_metadata_git_object'),
+           ('swh/model/git_objects.py', 'extid_git_object'),
+           ('swh/model/model.py', 'normalize_discovery_date'),
+           ('swh/model/model.py', 'RawExtrinsicMetadata.check_*'),
+           ('swh/model/model.py', 'ExtID.check_*')]
